@@ -302,6 +302,36 @@ func vFSOps() int      { return 0 }
 // vFSSched makes file-system calls scheduling points under gosymex (1: name-space operations, 2: reads and
 // writes too); natively the operating system pre-empts wherever it likes.
 func vFSSched(level int) {}
+
+// vFSSnapshot / vFSRestore: the image of the harness' temporary directories at this instant / put it back
+var vFSSnaps []map[string][]byte
+
+func vFSSnapshot() int {
+	snap := map[string][]byte{}
+	for _, d := range vTempDirs {
+		es, _ := os.ReadDir(d)
+		for _, e := range es {
+			if b, err := os.ReadFile(d + "/" + e.Name()); err == nil {
+				snap[d+"/"+e.Name()] = b
+			}
+		}
+	}
+	vFSSnaps = append(vFSSnaps, snap)
+	return len(vFSSnaps) - 1
+}
+
+func vFSRestore(h int) {
+	for _, d := range vTempDirs {
+		es, _ := os.ReadDir(d)
+		for _, e := range es {
+			os.Remove(d + "/" + e.Name())
+		}
+	}
+	for p, b := range vFSSnaps[h] {
+		os.WriteFile(p, b, 0644)
+	}
+}
+
 func vFSExists(path string) bool {
 	_, err := os.Stat(path)
 	return err == nil
